@@ -154,7 +154,7 @@ ANCHORS = {
               "Cell.get_actual_proximal", "Cell.reorder_segment_groups", "Cell.optimise_segment_groups"],
     },
     "C17": {
-        "neuroml/utils.py": ["fix_external_morphs_biophys_in_cell"],
+        "neuroml/utils.py": ["fix_external_morphs_biophys_in_cell", "_deepcopy_into"],
         "neuroml/hdf5/NeuroMLXMLParser.py": ["NeuroMLXMLParser.parse"],
     },
     "C18": {
